@@ -150,6 +150,11 @@ def build_harness(which):
     return None
 
 
+def marked(text):
+    """result lines of the harness carry the marker `@@` (libraries may print to stdout)"""
+    return [l[2:] for l in text.splitlines() if l.startswith("@@")]
+
+
 def run_parallel(binp, cases, jobs):
     """real-time suites: split the case list over several harness processes"""
     import concurrent.futures
@@ -160,12 +165,12 @@ def run_parallel(binp, cases, jobs):
         if not chunks[k]:
             return []
         rc, o = run([binp], inp="\n".join(chunks[k]) + "\n", timeout=7200)
-        ol = o.splitlines()
+        ol = marked(o)
         if rc != 0 or len(ol) != len(chunks[k]):
             ol = []
             for c in chunks[k]:
                 rc1, o1 = run([binp], inp=c + "\n", timeout=600)
-                l1 = o1.splitlines()
+                l1 = marked(o1)
                 ol.append(l1[0] if rc1 == 0 and len(l1) == 1 else "harness-died")
         return ol
     with concurrent.futures.ThreadPoolExecutor(max_workers=jobs) as ex:
@@ -187,13 +192,13 @@ def run_cases(cases, which="core", jobs=1):
         rc = 0
     else:
         rc, impl = run([binp], inp=inp, timeout=3600)
-        impl_lines = impl.splitlines()
+        impl_lines = marked(impl)
     if rc != 0 or len(impl_lines) != len(cases):
         # the harness died (abort / alloc failure): bisect to keep the other cases
         impl_lines = []
         for c in cases:
             rc1, o = run([binp], inp=c + "\n", timeout=600)
-            ol = o.splitlines()
+            ol = marked(o)
             impl_lines.append(ol[0] if rc1 == 0 and len(ol) == 1 else "harness-died")
     rc, mod = run([DRIVER_BIN], inp=inp, timeout=3600)
     mlines = mod.splitlines()
